@@ -35,8 +35,9 @@ use parser::Parser;
 use pattern::Pattern;
 use quote::ToTokens;
 
-use proc_macro2::{TokenStream, TokenTree};
+use proc_macro2::TokenStream;
 use quote::quote;
+use syn::punctuated::Punctuated;
 use syn::spanned::Spanned;
 use syn::{parse_quote, LitBool};
 use syn::{Fields, ItemEnum};
@@ -464,18 +465,16 @@ pub fn strip_attributes(input: TokenStream) -> TokenStream {
     for attr in &mut item.attrs {
         if let syn::Meta::List(meta) = &mut attr.meta {
             if meta.path.is_ident("derive") {
-                let mut tokens =
-                    std::mem::replace(&mut meta.tokens, TokenStream::new()).into_iter();
+                // The derive list holds paths (`Debug`, `logos::Logos`, `serde::Serialize`, ...):
+                // drop the ones naming `Logos`, keep every other one as written.
+                let parser = Punctuated::<syn::Path, syn::Token![,]>::parse_terminated;
 
-                while let Some(TokenTree::Ident(ident)) = tokens.next() {
-                    let punct = tokens.next();
+                if let Ok(paths) = meta.parse_args_with(parser) {
+                    let kept = paths
+                        .into_iter()
+                        .filter(|path| path.segments.last().map_or(true, |s| s.ident != "Logos"));
 
-                    if ident == "Logos" {
-                        continue;
-                    }
-
-                    meta.tokens.extend([TokenTree::Ident(ident)]);
-                    meta.tokens.extend(punct);
+                    meta.tokens = quote!(#(#kept),*);
                 }
             }
         }
